@@ -89,13 +89,22 @@ def r1_vocabulary(ctx):
         v = norm(c.args[1])
         val = c.args[1]
         ok = False
+        # the index variables are those of the enclosing `for X in range(..)` loops (outermost = element, innermost = component)
+        rloops = []
+        p_ = A.parent(c)
+        while p_ is not None and p_ is not seg:
+            if isinstance(p_, ast.For) and isinstance(p_.target, ast.Name) and isinstance(p_.iter, ast.Call) and path_of(p_.iter.func) == 'range':
+                rloops.append(p_.target.id)
+            p_ = A.parent(p_)
+        iv = rloops[-1] if rloops else 'i'
+        jv = rloops[0] if len(rloops) > 1 else 'j'
         if isinstance(val, ast.Call) and A.call_target(val) == ('seg_data', 'get_value') and val.args:
             # the designator expression must print position i+1 with two digits, however it is formatted
             try:
-                ok = [A.ev(val.args[0], {'i': k}) for k in (0, 8, 9, 41)] == ['01', '09', '10', '42']
+                ok = [A.ev(val.args[0], {iv: k}) for k in (0, 8, 9, 41)] == ['01', '09', '10', '42']
             except (A.NotClosed, TypeError, ValueError):
                 ok = False
-        elif v == 'comp_data[j].get_value()' or (re.match(r'^(\w+)\[j\]\.get_value\(\)$', v) and any(
+        elif v == 'comp_data[%s].get_value()' % jv or (re.match(r'^(\w+)\[%s\]\.get_value\(\)$' % re.escape(jv), v) and any(
                 isinstance(s_, ast.Assign) and path_of(s_.targets[0]) == v.split('[')[0] and isinstance(s_.value, ast.Call)
                 and A.call_target(s_.value) == ('seg_data', 'get') for s_ in ast.walk(seg))):
             ok = True
@@ -324,14 +333,14 @@ def r4_empty_agreement(ctx):
         tx = norm(c.args[1])
         st = A.enclosing(c, (ast.stmt,))
         conds = [(t, pol) for t, pol in A.path_condition(st, gs) if A.free_paths(t) <= {tx}]
-        for val, want in ((None, False), ('', False), ('v', True)):
+        for val, want in ((None, False), ('', False), ('v', True), (' ', True), ('  ', True), (' v ', True)):      # (a blank is data)
             try:
                 got = all(bool(A.ev(t, {tx: val})) == pol for t, pol in conds)
             except (A.NotClosed, TypeError):
                 got = None
             if got != want and not (val is None and got is True and False):
                 bad.append('%s is %s for text %r' % (norm(c), 'stored' if got else 'skipped', val))
-    ok = len(sets) == 2 and not [b_ for b_ in bad if "''" in b_ or "'v'" in b_]
+    ok = len(sets) == 2 and not [b_ for b_ in bad if "''" in b_ or "'v'" in b_ or "' '" in b_ or "'  '" in b_ or "' v '" in b_]
     yield Ob('xmlx12_simple:get_segment stores only non-empty text', ok, ctx.floc(gs), '' if ok else 'conditions: %s' % (bad or '%d stores' % len(sets)))
     conv = ctx.func('xmlx12_simple', 'convert')
     # one loop over the document's nodes in document order - all of them with a test for the <seg> tag, or iter('seg') -
